@@ -3,6 +3,7 @@ package main
 import (
 	"fmt"
 	"go/token"
+	"go/types"
 	"sort"
 	"strings"
 
@@ -145,9 +146,123 @@ func flattenVariadic(args []ssa.Value) []ssa.Value {
 				continue
 			}
 		}
+		// a package-level table of constants passed whole is the list of its constants
+		if ld, ok := a.(*ssa.UnOp); ok && ld.Op == token.MUL {
+			if g, ok := ld.X.(*ssa.Global); ok {
+				if vals := constTable(g); len(vals) > 0 {
+					out = append(out, vals...)
+					continue
+				}
+			}
+		}
 		out = append(out, a)
 	}
 	return out
+}
+
+// constTable: the constants a package-level slice or array is initialised with, provided nothing
+// but the package initialiser ever writes it (or takes its address for anything but reading).
+var constTableCache = map[*ssa.Global][]ssa.Value{}
+
+func constTable(g *ssa.Global) []ssa.Value {
+	if v, ok := constTableCache[g]; ok {
+		return v
+	}
+	constTableCache[g] = nil
+	if g.Pkg == nil || activeProg == nil || activeProg.SSA != g.Pkg.Prog {
+		delete(constTableCache, g)
+		return nil
+	}
+	gt := g.Type()
+	if pt, isP := gt.Underlying().(*types.Pointer); isP {
+		gt = pt.Elem()
+	}
+	switch gt.Underlying().(type) {
+	case *types.Slice, *types.Array:
+	default:
+		return nil
+	}
+	fromG := func(a ssa.Value) bool {
+		for d := 0; d < 4; d++ {
+			switch x := a.(type) {
+			case *ssa.Global:
+				return x == g
+			case *ssa.IndexAddr:
+				a = x.X
+			case *ssa.UnOp:
+				a = x.X
+			case *ssa.Slice:
+				a = x.X
+			default:
+				return false
+			}
+		}
+		return false
+	}
+	ok := true
+	var vals []ssa.Value
+	filled := func(al *ssa.Alloc) {
+		type el struct {
+			i int64
+			v ssa.Value
+		}
+		var els []el
+		for _, ref := range *al.Referrers() {
+			if ia, isIA := ref.(*ssa.IndexAddr); isIA {
+				k, isK := constInt(ia.Index)
+				if !isK {
+					ok = false
+				}
+				for _, r2 := range *ia.Referrers() {
+					if st, isS := r2.(*ssa.Store); isS {
+						if _, isC := st.Val.(*ssa.Const); !isC {
+							ok = false
+						}
+						els = append(els, el{k, st.Val})
+					}
+				}
+			}
+		}
+		sort.Slice(els, func(i, j int) bool { return els[i].i < els[j].i })
+		for _, e := range els {
+			vals = append(vals, e.v)
+		}
+	}
+	nInit := 0
+	for _, fn := range activeProg.allFnsWithInit(g.Pkg) {
+		forEachInstr(fn, func(_ *ssa.BasicBlock, _ int, in ssa.Instruction) {
+			st, isSt := in.(*ssa.Store)
+			if !isSt || !fromG(st.Addr) {
+				return
+			}
+			if fn.Name() != "init" || st.Addr != ssa.Value(g) {
+				ok = false
+				return
+			}
+			nInit++
+			switch val := st.Val.(type) {
+			case *ssa.Slice:
+				if al, isAl := val.X.(*ssa.Alloc); isAl {
+					filled(al)
+				} else {
+					ok = false
+				}
+			case *ssa.UnOp:
+				if al, isAl := val.X.(*ssa.Alloc); isAl && val.Op == token.MUL {
+					filled(al)
+				} else {
+					ok = false
+				}
+			default:
+				ok = false
+			}
+		})
+	}
+	if !ok || nInit != 1 || len(vals) == 0 {
+		return nil
+	}
+	constTableCache[g] = vals
+	return vals
 }
 
 // mirrorPair is one two-operand comparison found in a comparator.
